@@ -5,16 +5,17 @@
   IEEE-754 bit patterns for the node longitudes / latitudes (NaNs, ±0, infinities included),
   arbitrary connectivity tables of any shape, and any non-Grid right operand.
 
-  `gridEq` is the REPAIRED `Grid.__eq__` (`and`, fixes/C20-eq-connective.patch); `gridEqAsIs` is the
-  snapshot's (`or`), for which the property is refuted by a concrete witness (`asis_*`).
+  `gridEq` is the REPAIRED `Grid.__eq__`: connective `and` (fixes/C20-eq-connective.patch) and
+  VARIABLES compared instead of DataArrays (fixes/C20-eq-compares-variables.patch).  For it the
+  whole Spec is proved without hypotheses: `gridEq_iff` (`a == b` ⇔ same format and identical
+  arrays), `impl_meets_spec`, `single_change_detected`, `eq_refl`, `eq_symm`, `eq_trans`,
+  `ne_iff_not_eq`, `copy_eq`, `non_grid_false`, `backing_irrelevant`, `eq_implies_same_shape`.
 
-  Unconditional (all pairs): `eq_sound` (equal ⇒ same format and identical arrays), hence
-  `single_change_detected` / `any_difference_detected`; `eq_refl`, `eq_symm`, `eq_trans`,
-  `ne_iff_not_eq`, `copy_eq`, `non_grid_false`, `specB_iff`.
-  Partial: the converse `Same a b → a == b` needs `a.coordVars = b.coordVars` (both grids keep
-  `node_lon`/`node_lat` the same way: as data variables or as xarray coordinates), see
-  `eq_complete_partial`, `impl_meets_spec_partial`; `coords_structure_violates_spec` is the proved
-  counterexample without it (known finding `C20/eq=False/differs=none/coords-structure`).
+  Regression witnesses for the two earlier versions of the code (proved counterexamples):
+  `gridEqAsIs` (snapshot, `or`): `asis_violates_spec`;
+  `gridEqCoords` (`and`, `DataArray.equals`, coordinates compared too):
+  `coords_structure_violates_spec`, exact behaviour `gridEqCoords_iff`, agreement class
+  `coords_partial` (`a.coordVars = b.coordVars`).
 -/
 import UxVerif.Model.GridEq
 
@@ -227,36 +228,29 @@ theorem same_iff_bools (a b : Grid) :
   unfold Same
   rw [← arrEq_valEq_iff, ← arrEq_valEq_iff, ← connEq_iff]
 
-/-- **exact characterisation of `==`** (repaired connective): True iff same format, identical
-    longitudes, latitudes and connectivity — and the same way of storing the coordinates. -/
-theorem gridEq_iff (a b : Grid) :
-    gridEq a b = true ↔ Same a b ∧ a.coordVars = b.coordVars := by
+/-- **exact characterisation of `==`** (repaired): True iff same format, identical longitudes,
+    latitudes and connectivity — nothing else (in particular not the way the source dataset
+    stored the coordinates). -/
+theorem gridEq_iff (a b : Grid) : gridEq a b = true ↔ Same a b := by
   rw [same_iff_bools]
-  unfold gridEq lonEq latEq coordsEq
+  unfold gridEq lonEq latEq
   generalize arrEq valEq a.lon b.lon = L
   generalize arrEq valEq a.lat b.lat = T
   generalize connEq a b = C
-  generalize a.coordVars = ca
-  generalize b.coordVars = cb
   by_cases hs : a.spec = b.spec
-  · cases L <;> cases T <;> cases C <;> cases ca <;> cases cb <;> simp [hs]
+  · cases L <;> cases T <;> cases C <;> simp [hs]
   · simp [hs]
 
-/-- **equal ⇒ same** (unconditional): whenever `a == b` is True the grids stem from the same
-    format and have identical longitudes, latitudes and connectivity. -/
-theorem eq_sound (a b : Grid) (h : gridEq a b = true) : Same a b := ((gridEq_iff a b).mp h).1
+/-- **equal ⇒ same**: whenever `a == b` is True the grids stem from the same format and have
+    identical longitudes, latitudes and connectivity. -/
+theorem eq_sound (a b : Grid) (h : gridEq a b = true) : Same a b := (gridEq_iff a b).mp h
 
-/-- **same ⇒ equal**, for grids that store their node coordinates the same way.
-    FULL statement `∀ a b, Same a b → gridEq a b = true` is FALSE for the code as it is
-    (`coords_structure_violates_spec`); the excluded class is `a.coordVars ≠ b.coordVars`. -/
-theorem eq_complete_partial (a b : Grid) (hc : a.coordVars = b.coordVars) (h : Same a b) :
-    gridEq a b = true := (gridEq_iff a b).mpr ⟨h, hc⟩
+/-- **same ⇒ equal**, for all pairs. -/
+theorem eq_complete (a b : Grid) (h : Same a b) : gridEq a b = true := (gridEq_iff a b).mpr h
 
-/-- `a == b` is True iff same format, identical longitudes, latitudes and connectivity
-    (for grids that store their node coordinates the same way). -/
-theorem gridEq_iff_same_partial (a b : Grid) (hc : a.coordVars = b.coordVars) :
-    gridEq a b = true ↔ Same a b :=
-  ⟨eq_sound a b, eq_complete_partial a b hc⟩
+/-- `==` does not read `coordVars`: the way the coordinates are stored is not an input. -/
+theorem eq_ignores_coord_storage (a b : Grid) (ca cb : Bool) :
+    gridEq { a with coordVars := ca } { b with coordVars := cb } = gridEq a b := rfl
 
 /-- every way of being unequal: the 2^4 combinations of differing fields collapse to "some
     comparison fails". -/
@@ -268,24 +262,22 @@ theorem gridEq_false_iff (a b : Grid) :
   · cases h1 : lonEq a b <;> cases h2 : latEq a b <;> cases h3 : connEq a b <;> simp [hs]
   · simp [hs]
 
-/-- **refinement**: for every pair of grids (storing coordinates the same way) the outputs of
-    `==` and `!=` satisfy the Spec.  FULL statement (no hypothesis) is false, see below. -/
-theorem impl_meets_spec_partial (a b : Grid) (hc : a.coordVars = b.coordVars) :
-    Spec a b (pyEq a (.grid b)) (pyNe a (.grid b)) :=
-  ⟨gridEq_iff_same_partial a b hc, rfl⟩
+/-- **refinement**: for EVERY pair of grids the outputs of `==` and `!=` satisfy the Spec. -/
+theorem impl_meets_spec (a b : Grid) : Spec a b (pyEq a (.grid b)) (pyNe a (.grid b)) :=
+  ⟨gridEq_iff a b, rfl⟩
 
-example : Spec ⟨[85], [0, 1], [0, 0], 1, 2, [0, 1], false⟩ ⟨[85], [0, 1], [0, 0], 1, 2, [0, 1], false⟩
-    true false := impl_meets_spec_partial _ _ rfl
+example : Spec ⟨[85], [0, 1], [0, 0], 1, 2, [0, 1], false⟩ ⟨[85], [0, 1], [0, 0], 1, 2, [0, 1], true⟩
+    true false := impl_meets_spec _ _
 example : Spec ⟨[85], [0, 1], [0, 0], 1, 2, [0, 1], true⟩ ⟨[85], [0, 2], [0, 0], 1, 2, [0, 1], true⟩
-    false true := impl_meets_spec_partial _ _ rfl
+    false true := impl_meets_spec _ _
 
 /-- the Spec determines both outputs: "Spec fails on the observed output" and "observed output
-    differs from the model" coincide (same storage of coordinates). -/
-theorem spec_unique (a b : Grid) (e n : Bool) (hc : a.coordVars = b.coordVars)
-    (h : Spec a b e n) : e = gridEq a b ∧ n = !gridEq a b := by
+    differs from the model" coincide. -/
+theorem spec_unique (a b : Grid) (e n : Bool) (h : Spec a b e n) :
+    e = gridEq a b ∧ n = !gridEq a b := by
   obtain ⟨h1, h2⟩ := h
   have he : e = gridEq a b := by
-    rw [Bool.eq_iff_iff, h1, gridEq_iff_same_partial a b hc]
+    rw [Bool.eq_iff_iff, h1, gridEq_iff a b]
   exact ⟨he, by rw [h2, he]⟩
 
 /-! ## the laws named by the property -/
@@ -310,7 +302,7 @@ theorem Same.trans {a b c : Grid} (h1 : Same a b) (h2 : Same b c) : Same a c := 
     exact (a3.2 i h₁ (a3.1 ▸ h₁)).trans (b3.2 i (a3.1 ▸ h₁) h₂)
 
 /-- **reflexive**: every grid equals itself — also one whose coordinates contain NaN. -/
-theorem eq_refl (a : Grid) : gridEq a a = true := (gridEq_iff a a).mpr ⟨Same.refl a, rfl⟩
+theorem eq_refl (a : Grid) : gridEq a a = true := (gridEq_iff a a).mpr (Same.refl a)
 
 example : gridEq ⟨[85], [0x7FF8000000000000, 1], [0, 0], 1, 2, [0, FILL], false⟩
     ⟨[85], [0x7FF8000000000000, 1], [0, 0], 1, 2, [0, FILL], false⟩ = true := eq_refl _
@@ -318,13 +310,13 @@ example : gridEq ⟨[85], [0x7FF8000000000000, 1], [0, 0], 1, 2, [0, FILL], fals
 /-- **symmetric**: `a == b` and `b == a` always agree. -/
 theorem eq_symm (a b : Grid) : gridEq a b = gridEq b a := by
   rw [Bool.eq_iff_iff, gridEq_iff, gridEq_iff]
-  exact ⟨fun h => ⟨h.1.symm, h.2.symm⟩, fun h => ⟨h.1.symm, h.2.symm⟩⟩
+  exact ⟨Same.symm, Same.symm⟩
 
 /-- (beyond the statement) equality is transitive, hence an equivalence relation on grids. -/
 theorem eq_trans {a b c : Grid} (h1 : gridEq a b = true) (h2 : gridEq b c = true) :
     gridEq a c = true := by
   rw [gridEq_iff] at *
-  exact ⟨h1.1.trans h2.1, h1.2.trans h2.2⟩
+  exact h1.trans h2
 
 /-- **`!=` is the negation of `==`**, for a Grid or any other right operand. -/
 theorem ne_iff_not_eq (a : Grid) (o : Obj) : pyNe a o = true ↔ ¬ (pyEq a o = true) := by
@@ -419,7 +411,8 @@ theorem failing_nil_iff (a b : Grid) (e n : Bool) : failing a b e n = [] ↔ Spe
   simp only [failing, specB]
   cases h1 : (e == sameB a b) <;> cases h2 : (n == !e) <;> simp
 
-/-! ## known finding: the way the coordinates are stored leaks into `==`
+/-! ## the version before fixes/C20-eq-compares-variables.patch: the way the coordinates are
+    stored leaked into `==` — regression witness
 
     Same triangle, same format, identical arrays; `cA` keeps `node_lon`/`node_lat` as data
     variables, `cB` as xarray coordinates.  `DataArray.equals` compares coordinates too. -/
@@ -428,12 +421,41 @@ def cA : Grid := ⟨[85], [0, 4621819117588971520, 4626322717216342016],
   [0, 0, 4617315517961601024], 1, 3, [0, 1, 2], false⟩
 def cB : Grid := { cA with coordVars := true }
 
+/-- what `DataArray.equals` made of `==`: also the same way of storing the coordinates. -/
+theorem gridEqCoords_iff (a b : Grid) :
+    gridEqCoords a b = true ↔ Same a b ∧ a.coordVars = b.coordVars := by
+  rw [same_iff_bools]
+  unfold gridEqCoords lonEqDA latEqDA coordsEq
+  generalize arrEq valEq a.lon b.lon = L
+  generalize arrEq valEq a.lat b.lat = T
+  generalize connEq a b = C
+  generalize a.coordVars = ca
+  generalize b.coordVars = cb
+  by_cases hs : a.spec = b.spec
+  · cases L <;> cases T <;> cases C <;> cases ca <;> cases cb <;> simp [hs]
+  · simp [hs]
+
+/-- … so identical grids whose source datasets stored the coordinates differently compared
+    unequal: the Spec was violated (and is met by the repaired `gridEq` on the same pair). -/
 theorem coords_structure_violates_spec :
-    ¬ Spec cA cB (pyEq cA (.grid cB)) (pyNe cA (.grid cB)) := by
+    ¬ Spec cA cB (gridEqCoords cA cB) (!gridEqCoords cA cB) := by
   intro h
   have := (specB_iff _ _ _ _).mpr h
   revert this
   decide
+
+example : Spec cA cB (gridEq cA cB) (!gridEq cA cB) := impl_meets_spec cA cB
+example : gridEq cA cB = true := by decide
+
+/-- the `DataArray.equals` version was right exactly on pairs that store the coordinates the
+    same way; it never called different grids equal. -/
+theorem coords_partial (a b : Grid) (hc : a.coordVars = b.coordVars) :
+    gridEqCoords a b = gridEq a b := by
+  rw [Bool.eq_iff_iff, gridEqCoords_iff, gridEq_iff]
+  exact ⟨fun h => h.1, fun h => ⟨h, hc⟩⟩
+
+theorem coords_sound (a b : Grid) (h : gridEqCoords a b = true) : gridEq a b = true :=
+  (gridEq_iff a b).mpr ((gridEqCoords_iff a b).mp h).1
 
 /-! ## the snapshot's connective (`or`) — regression witness
 
@@ -456,7 +478,7 @@ theorem asis_violates_spec : ¬ Spec wA wB (gridEqAsIs wA wB) (!gridEqAsIs wA wB
   revert this
   decide
 
-example : Spec wA wB (gridEq wA wB) (!gridEq wA wB) := impl_meets_spec_partial wA wB rfl
+example : Spec wA wB (gridEq wA wB) (!gridEq wA wB) := impl_meets_spec wA wB
 
 /-! ## the backing state (numpy / dask) is not an input of `==`
 
@@ -633,25 +655,27 @@ theorem flat_partial (a b : Grid) (h1 : a.nFace = b.nFace) (h2 : a.width = b.wid
 /-- what `or` computes: it forgets one of the two coordinate comparisons. -/
 theorem asis_eq_iff (a b : Grid) :
     gridEqAsIs a b = true ↔
-      a.spec = b.spec ∧ (lonEq a b = true ∨ latEq a b = true) ∧ connEq a b = true := by
+      a.spec = b.spec ∧ (lonEqDA a b = true ∨ latEqDA a b = true) ∧ connEq a b = true := by
   unfold gridEqAsIs
   by_cases hs : a.spec = b.spec
-  · cases h1 : lonEq a b <;> cases h2 : latEq a b <;> cases h3 : connEq a b <;> simp [hs]
+  · cases h1 : lonEqDA a b <;> cases h2 : latEqDA a b <;> cases h3 : connEq a b <;> simp [hs]
   · simp [hs]
 
-/-- the as-is algorithm is right exactly on the class where the two coordinate comparisons
-    agree (the only pairs the test-suite compares). -/
-theorem asis_partial (a b : Grid) (h : lonEq a b = latEq a b) : gridEqAsIs a b = gridEq a b := by
-  unfold gridEqAsIs gridEq
+/-- the snapshot's algorithm agrees with the `and` version exactly on the class where the two
+    coordinate comparisons agree (the only pairs the test-suite compares). -/
+theorem asis_partial (a b : Grid) (h : lonEqDA a b = latEqDA a b) :
+    gridEqAsIs a b = gridEqCoords a b := by
+  unfold gridEqAsIs gridEqCoords
   rw [h]
-  cases latEq a b <;> simp
+  cases latEqDA a b <;> simp
 
 /-- … in particular on grids whose coordinates are xarray coordinates (Exodus reader): there each
-    `equals` call already compares both arrays, which masks the wrong connective. -/
+    `DataArray.equals` call already compares both arrays, which masked the wrong connective. -/
 theorem asis_coordVars (a b : Grid) (ha : a.coordVars = true) (hb : b.coordVars = true) :
     gridEqAsIs a b = gridEq a b := by
+  rw [← coords_partial a b (ha.trans hb.symm)]
   apply asis_partial
-  unfold lonEq latEq coordsEq
+  unfold lonEqDA latEqDA coordsEq
   rw [ha, hb]
   cases arrEq valEq a.lon b.lon <;> cases arrEq valEq a.lat b.lat <;> rfl
 
